@@ -108,15 +108,18 @@ CHECKS["C15"] = cfg(
     technique="runtime monitoring: sequential model of both stores over random histories; racing std-thread rounds with per-digest linearizability (Wing-Gong) check over recorded call/return stamps; TSan and Miri flavours",
     level_text="Random operation histories on JwkMemStore/KeyIdMemstore are compared step by step with a harness model (fresh ids, public-only JWK, RFC 7638 kid recomputed, signatures verifying under their own key and no other, deleted/never-issued ids dead, insert argument validation, second insert per digest refused). Racing rounds on 2-16 threads record client-boundary histories whose per-digest sub-histories must be linearizable (exactly one winner, every get returns it). Thorough adds ThreadSanitizer and Miri runs of the racing rounds.",
     min={"quick": {"sign_ok": 1000, "cross_key_verifications": 5000, "generate_ok": 500, "insert_rejected": 200, "kid_insert_dup_rejected": 50,
-                   "race_single_winner": 1000, "race_overlapping_rounds": 50, "lin_checked": 2000, "lin_checked_with_overlap": 200, "nontrivial": 200},
+                   "race_single_winner": 1000, "race_overlapping_rounds": 50, "lin_checked": 2000, "lin_checked_with_overlap": 200, "nontrivial": 200,
+                   "sh_seq_ops": 500, "sh_sign_ok": 100, "sh_delete_absent_rejected": 30, "sh_race_single_winner": 30},
          "thorough": {"sign_ok": 50000, "race_single_winner": 50000, "lin_checked": 100000, "lin_checked_with_overlap": 10000,
                       "sh_seq_ops": 3000, "sh_sign_ok": 800, "sh_cross_key_verifications": 5000, "sh_race_single_winner": 300, "sh_lin_checked": 200}},
+    quick=[{"flavour": "checked", "shards": 8, "timeout": 600},
+           {"flavour": "checked", "package": "vhs", "bin": "c15s", "shards": 8, "timeout": 600}],
     thorough=[{"flavour": "checked", "shards": 16, "timeout": 3000},
               {"flavour": "tsan", "tier": "quick", "shards": 8, "timeout": 3000, "args": {"scale": 1000}},
               {"flavour": "miri", "tier": "quick", "shards": 16, "timeout": 3600, "args": {"scale": 5, "parts": 6}},
               {"flavour": "checked", "package": "vhs", "bin": "c15s", "shards": 16, "timeout": 3000}],
     assumptions=["the public_key argument of sign only needs to carry alg/curve",
-                 "Stronghold is exercised by the separate stronghold stage (thorough) when available; Miri cannot cross its FFI",
+                 "StrongholdStorage is exercised by the separate stronghold stage (harness/vhs, bin c15s; quick and thorough); Miri cannot cross its FFI",
                  "insert of a JWK whose d is malformed is counted, not judged"],
 )
 
